@@ -110,7 +110,10 @@ func (g *sgen) cond() types.Value {
 	case 11:
 		return types.NewMap(str("$gt"), types.NewInt(r.Intn(3)), str("$ne"), g.scalar())
 	case 12:
-		return types.NewMap(str("x"), types.NewInt(r.Intn(3))) // nested field
+		if r.Intn(3) == 0 {
+			return types.NewMap(str("x"), types.NewInt(r.Intn(3))) // nested field
+		}
+		return types.NewMap(str("x"), g.cond()) // nested field under any condition (the parent may be missing or a scalar)
 	default:
 		return op("$exists", types.NewInt(r.Intn(2)))
 	}
